@@ -350,7 +350,37 @@ func (m *MsgClaim) ValidateBasic() (err error) {
 	if !ok {
 		return sdkerrors.ErrInvalidRequest.Wrapf("expected claim type %T, got %T", new(ExternalClaim), m.Claim.GetCachedValue())
 	}
-	return claim.ValidateBasic()
+	if err = claim.ValidateBasic(); err != nil {
+		return err
+	}
+	// the transaction is signed by the wrapper's bridger, the vote is counted for the claim's bridger
+	if claim.GetClaimer().String() != m.BridgerAddress {
+		return sdkerrors.ErrInvalidAddress.Wrap("bridger address mismatch")
+	}
+	return nil
+}
+
+func (m *MsgConfirm) ValidateBasic() (err error) {
+	if _, ok := externalAddressRouter[m.ChainName]; !ok {
+		return sdkerrors.ErrInvalidRequest.Wrap("unrecognized cross chain name")
+	}
+	if m.Confirm == nil {
+		return sdkerrors.ErrInvalidRequest.Wrap("empty confirm")
+	}
+	confirm, ok := m.Confirm.GetCachedValue().(Confirm)
+	if !ok {
+		return sdkerrors.ErrInvalidRequest.Wrapf("expected confirm type %T, got %T", new(Confirm), m.Confirm.GetCachedValue())
+	}
+	if vb, ok := confirm.(sdk.HasValidateBasic); ok {
+		if err = vb.ValidateBasic(); err != nil {
+			return err
+		}
+	}
+	// the transaction is signed by the wrapper's bridger, the confirm is attributed to the wrapped bridger
+	if confirm.GetBridgerAddress() != m.BridgerAddress {
+		return sdkerrors.ErrInvalidAddress.Wrap("bridger address mismatch")
+	}
+	return nil
 }
 
 func (m *MsgClaim) GetSigners() []sdk.AccAddress {
